@@ -47,6 +47,11 @@ def obligations(tier, seed=0):
         add(bc=bc, exp=exp, dps=dps, sign=dps % 2, opts=dict(min_fixed=-big, max_fixed=big), fmt='fixed')
         add(bc=bc, exp=exp, dps=dps, sign=0, opts=dict(min_fixed=0, max_fixed=0))
         add(bc=bc, exp=exp, dps=dps, sign=1, opts=dict(show_zero_exponent=True), fmt='exp0')
+    # the parsing half of the round trip for |decimal exponent| > 400 (the approximate branch of from_str, reached through the
+    # lowered-threshold cut of C07): to nearest it must stay within (1/2 + 1/32) ulp, or repr() would not parse back
+    for mbits, E, prec in [(20, 8, 2), (20, -8, 2), (12, 9, 3), (30, -9, 2)]:
+        for mneg in (0, 1):
+            obs.append((FS + 'from_str_num', dict(mbits=mbits, E=E, prec=prec, rnd='n', mneg=mneg, limit=5, roundtrip=True)))
     # repr prints enough digits for the round trip (with nearest printing, here, and nearest parsing, C07)
     obs.append((FS + 'lemma_repr_digits', {}))
     for kind in ('zero', 'inf', 'ninf', 'nan'):
